@@ -7,10 +7,16 @@ import (
 
 	ouroboros "github.com/blinklabs-io/gouroboros"
 	"github.com/blinklabs-io/gouroboros/protocol"
+	"github.com/blinklabs-io/gouroboros/protocol/blockfetch"
 	"github.com/blinklabs-io/gouroboros/protocol/chainsync"
 	pcommon "github.com/blinklabs-io/gouroboros/protocol/common"
 	"github.com/blinklabs-io/gouroboros/protocol/keepalive"
+	"github.com/blinklabs-io/gouroboros/protocol/leiosfetch"
+	"github.com/blinklabs-io/gouroboros/protocol/localstatequery"
+	"github.com/blinklabs-io/gouroboros/protocol/localtxmonitor"
+	"github.com/blinklabs-io/gouroboros/protocol/localtxsubmission"
 	"github.com/blinklabs-io/gouroboros/protocol/peersharing"
+	"github.com/blinklabs-io/gouroboros/protocol/txsubmission"
 	rt "github.com/blinklabs-io/gouroboros/verifsimrt"
 )
 
@@ -67,7 +73,39 @@ func rolesSetup(s *rt.Sim, tier string) func() {
 			rt.Log("server callback: ShareRequest")
 			return nil, nil
 		}))
-		opts := append(co.options(pair.A), ouroboros.WithChainSyncConfig(csCfg), ouroboros.WithKeepAliveConfig(kaCfg), ouroboros.WithPeerSharingConfig(psCfg))
+		bfCfg, _ := blockfetch.NewConfig(blockfetch.WithRequestRangeFunc(func(ctx blockfetch.CallbackContext, a, b pcommon.Point) error {
+			serverCallbacks++
+			rt.Log("server callback: RequestRange")
+			return ctx.Server.NoBlocks()
+		}))
+		txCfg := txsubmission.NewConfig(txsubmission.WithInitFunc(func(txsubmission.CallbackContext) error {
+			serverCallbacks++
+			rt.Log("server callback: Init")
+			return nil
+		}))
+		lfCfg := leiosfetch.NewConfig(leiosfetch.WithBlockRequestFunc(func(leiosfetch.CallbackContext, pcommon.Point) (protocol.Message, error) {
+			serverCallbacks++
+			rt.Log("server callback: leios BlockRequest")
+			return leiosfetch.NewMsgNoBlock(), nil
+		}))
+		ltsCfg := localtxsubmission.NewConfig(localtxsubmission.WithSubmitTxFunc(func(localtxsubmission.CallbackContext, localtxsubmission.MsgSubmitTxTransaction) error {
+			serverCallbacks++
+			rt.Log("server callback: SubmitTx")
+			return nil
+		}))
+		lsqCfg := localstatequery.NewConfig(localstatequery.WithAcquireFunc(func(localstatequery.CallbackContext, localstatequery.AcquireTarget, bool) error {
+			serverCallbacks++
+			rt.Log("server callback: Acquire")
+			return nil
+		}))
+		ltmCfg := localtxmonitor.NewConfig(localtxmonitor.WithGetMempoolFunc(func(localtxmonitor.CallbackContext) (uint64, uint32, []localtxmonitor.TxAndEraId, error) {
+			serverCallbacks++
+			rt.Log("server callback: GetMempool")
+			return 1000, 0, nil, nil
+		}))
+		opts := append(co.options(pair.A), ouroboros.WithChainSyncConfig(csCfg), ouroboros.WithKeepAliveConfig(kaCfg), ouroboros.WithPeerSharingConfig(psCfg),
+			ouroboros.WithBlockFetchConfig(bfCfg), ouroboros.WithTxSubmissionConfig(txCfg), ouroboros.WithLeiosFetchConfig(lfCfg),
+			ouroboros.WithLocalTxSubmissionConfig(ltsCfg), ouroboros.WithLocalStateQueryConfig(lsqCfg), ouroboros.WithLocalTxMonitorConfig(ltmCfg))
 		peer := newRawPeer(pair.B)
 		var conn *ouroboros.Connection
 		var cErr error
@@ -149,23 +187,29 @@ func rolesSetup(s *rt.Sim, tier string) func() {
 		if what == "request" {
 			switch {
 			case co.ntn:
-				cands = []probeMsg{{chainsync.ProtocolIdNtN, "chainsync-ntn", 4}, {chainsync.ProtocolIdNtN, "chainsync-ntn", 0}, {keepalive.ProtocolId, "keepalive", 0}}
+				cands = []probeMsg{{chainsync.ProtocolIdNtN, "chainsync-ntn", 4}, {chainsync.ProtocolIdNtN, "chainsync-ntn", 0}, {keepalive.ProtocolId, "keepalive", 0},
+					{blockfetch.ProtocolId, "blockfetch", 0}, {txsubmission.ProtocolId, "txsubmission", 6}, {leiosfetch.ProtocolId, "leiosfetch", 0}}
 				if version >= 11 && co.peerSharing {
 					cands = append(cands, probeMsg{10, "peersharing", 0})
 				}
 			case co.dmq:
-				cands = nil
+				cands = []probeMsg{{15, "localmessagenotification", 0}}
 			default:
-				cands = []probeMsg{{chainsync.ProtocolIdNtC, "chainsync-ntc", 4}, {chainsync.ProtocolIdNtC, "chainsync-ntc", 0}}
+				cands = []probeMsg{{chainsync.ProtocolIdNtC, "chainsync-ntc", 4}, {chainsync.ProtocolIdNtC, "chainsync-ntc", 0},
+					{localtxsubmission.ProtocolId, "localtxsubmission", 0}, {localstatequery.ProtocolId, "localstatequery", 8}}
+				if version >= 0x8000+12 {
+					cands = append(cands, probeMsg{localtxmonitor.ProtocolId, "localtxmonitor", 1})
+				}
 			}
 		} else {
 			switch {
 			case co.ntn:
-				cands = []probeMsg{{chainsync.ProtocolIdNtN, "chainsync-ntn", 6}, {keepalive.ProtocolId, "keepalive", 1}}
+				cands = []probeMsg{{chainsync.ProtocolIdNtN, "chainsync-ntn", 6}, {keepalive.ProtocolId, "keepalive", 1},
+					{blockfetch.ProtocolId, "blockfetch", 3}, {txsubmission.ProtocolId, "txsubmission", 0}, {leiosfetch.ProtocolId, "leiosfetch", 100}}
 			case co.dmq:
-				cands = nil
+				cands = []probeMsg{{14, "localmessagesubmission", 1}, {15, "localmessagenotification", 1}}
 			default:
-				cands = []probeMsg{{chainsync.ProtocolIdNtC, "chainsync-ntc", 6}}
+				cands = []probeMsg{{chainsync.ProtocolIdNtC, "chainsync-ntc", 6}, {localstatequery.ProtocolId, "localstatequery", 1}, {localtxsubmission.ProtocolId, "localtxsubmission", 1}}
 			}
 		}
 		if len(cands) == 0 {
@@ -178,6 +222,7 @@ func rolesSetup(s *rt.Sim, tier string) func() {
 		_ = peer.sendMsg(pm.id, what == "response", sampleBytes(pm.label, pm.typ, 0, 1))
 		sleep(oneOf("op", 5*time.Second, 2*time.Minute))
 		rt.Hit("roles." + what)
+		rt.Hit("roles.proto." + pm.label)
 		closedWithError := len(watch.errs) > 0
 		switch {
 		case what == "request" && !hasResponder:
